@@ -291,15 +291,15 @@ Lemma ibs_spec st T C : Inv E st ->
     end.
 Proof.
   intros I. unfold implementedBy_super.
-  destruct (mro_of E T) as [mro|] eqn:M.
-  2:{ exists st, None. unfold rest_of. rewrite M. auto. }
   set (cache := cache_of st T).
   set (st0 := mkSt (st_decl st) (st_synth st) (nset (st_cache st) T cache) (st_regs st)).
   assert (I0 : Inv E st0) by (apply Inv_touch; auto).
   destruct (nget cache C) as [s|] eqn:HC.
   - exists st0, (Some s). repeat split; auto.
     destruct (cache_of_inv E st T C s I HC) as (l2 & y & R & N & B). rewrite R. eauto.
-  - assert (RO : rest_of E T C = match rest_after C mro with [] => None | l => Some l end)
+  - destruct (mro_of E T) as [mro|] eqn:M.
+    2:{ exists st0, None. unfold rest_of. rewrite M. auto. }
+    assert (RO : rest_of E T C = match rest_after C mro with [] => None | l => Some l end)
       by (unfold rest_of; rewrite M; auto).
     unfold next_super_class. destruct (index_of C mro) as [i|] eqn:IX.
     2:{ exists st0, None. repeat split; auto. rewrite RO, rest_after_notIn; auto.
